@@ -22,12 +22,12 @@ def octVal (c : Char) : Option Nat :=
   let v := c.toNat
   if 48 ≤ v ∧ v ≤ 55 then some (v - 48) else none
 
-/-- `u8::from_str_radix` on a string of exactly two characters -/
+/-- `u8::from_str_radix` on a string of exactly two characters, both of which are digits (until fix 1ed9ffe a
+leading `+` was let through to the number parser, which reads it as a sign: `\x+1` was the byte 1) -/
 def parsePair (digit : Char → Option Nat) (radix : Nat) (c1 c2 : Char) : Option Nat :=
-  if c1 = '+' then digit c2
-  else match digit c1, digit c2 with
-    | some a, some b => some (a * radix + b)
-    | _, _ => none
+  match digit c1, digit c2 with
+  | some a, some b => some (a * radix + b)
+  | _, _ => none
 
 /-- pass 1: `unescape_tabs` -/
 def unescapeTabs : List Char → List Char
